@@ -347,6 +347,11 @@ class _FuncTaint:
                 return t, (f"{m.qualname}() derives its result from {why}" if t else "")
         # method call on an object
         classes = self.recv_classes(recv)
+        rk = self.e.k.node_kinds.get(id(recv)) or ()
+        is_container = any(isinstance(x, tuple) and x[0] in ("list", "dict", "tuple", "set") for x in rk) and not any(isinstance(x, tuple) and x[0] == "inst" for x in rk)
+        if is_container and name in ("copy", "get", "pop", "items", "values", "keys", "setdefault", "__getitem__"):
+            # builtin container: `.copy()` is shallow -- a new list holding the very same elements
+            return self.any_T([recv] + args)
         targets = []
         if isinstance(recv, ast.Name) and recv.id == "self" and self.fi.cls:
             classes = [self.fi.cls] + [ci.name for ci in eng.p.classes.values() if self.fi.cls in eng.p.mro(ci.name)[1:]]
